@@ -40,6 +40,11 @@ RULE = (
     "(3,4,5,6 utterances), batch_size 1..2, two epochs + fresh loader; thorough = every multiset corpus, three epochs. "
     "(e) object histories: in the structure pass and for rank 0 of pass (d) a pass is abandoned after its first "
     "batch, len() asked, a second pass run and the first resumed - both must equal epoch 0 of the history. "
+    "(g) disturbances in the middle of an epoch, on ONE loader object (4 tie corpora, bucketed x shuffle seeds 0,1 x "
+    "batch_size 1..2 x drop_last x {no group, both ranks of a simulated group of 2}; thorough adds unbucketed, "
+    "sequential, more corpora and groups): for every prefix length k of epoch 0 and every disturbance in {len(loader), "
+    "loader.epoch read, sampler.get_samples_for_epoch(epoch / epoch+1) consumed, a second iter(loader) abandoned after "
+    "0 / 1 batches}: take k batches, disturb, finish the epoch - the batches must equal a fresh loader's epoch 0. "
     "(f) the *_seq_to_batch functions also with inputs that require grad / are non-contiguous offset views, inputs "
     "compared with their values afterwards, the previous call's result re-read after the next call; loaders and "
     "window loaders constructed and iterated under torch.set_default_dtype(float64). "
@@ -56,6 +61,8 @@ ASSUMPTIONS = [
     "pass covers the interaction completely only for n <= 2 in the quick tier",
     "process groups are simulated at the four torch.distributed queries (reduced pass in the quick tier, full in thorough)",
     "the value len(loader) reports in the middle of a pass is not constrained (only asked, as a disturbance)",
+    "a pass is bound to its epoch by its first delivered batch (iterators are lazy), so a second pass is only used "
+    "as a disturbance after at least one batch of the first",
     "the order of left-over batches is compared only for non-negative int bucket ids (docs say hash order, code id order)",
 ]
 BUDGET_S = {"quick": 240, "thorough": 2400}
@@ -112,11 +119,13 @@ def shards(tier, seed):
         out += [{"part": "struct", "kind": k, "i": i, "of": 8} for k in ("spect", "lang") for i in range(8)]
         out += [{"part": "collate", "kind": k, "i": i, "of": 8} for k in ("spect", "lang") for i in range(8)]
         out += [{"part": "dist", "kind": k, "i": i, "of": 12} for k in ("spect", "lang") for i in range(12)]
+        out += [{"part": "mid", "kind": k, "i": i, "of": 8} for k in ("spect", "lang") for i in range(8)]
     else:
         out += [{"part": "struct", "kind": k, "i": i, "of": s} for k, s in (("spect", 8), ("lang", 4)) for i in range(s)]
         out += [{"part": "collate", "kind": k, "i": i, "of": s} for k, s in (("spect", 12), ("lang", 4)) for i in range(s)]
         out += [{"part": "joint", "kind": k, "i": i, "of": s} for k, s in (("spect", 6), ("lang", 2)) for i in range(s)]
         out += [{"part": "dist", "kind": k, "i": i, "of": 4} for k in ("spect", "lang") for i in range(4)]
+        out += [{"part": "mid", "kind": k, "i": i, "of": 4} for k in ("spect", "lang") for i in range(4)]
     out += [{"part": "window", "i": i, "of": 4} for i in range(4)]
     out += [{"part": "direct"}]
     only = os.environ.get("VERIF_C14_PARTS")  # development aid: run a subset of the passes (never set by MANIFEST)
@@ -432,6 +441,91 @@ def _dist_pass(ctx, spec, tier, seed):
                             break
 
 
+# ------------------------------------------ (g) disturbances in the middle of an epoch ----
+DISTURBANCES = ("len", "epoch-read", "peek-cur", "peek-next", "second-iter-0", "second-iter-1")
+
+
+def run_mid_epoch(ctx, kind, corpus, root, bc, fl, group=None, mode=None, only=None):
+    """Object history on ONE loader: rewind to epoch 0, take k batches, do something else with the loader (what a
+    progress bar or a logger does), finish the epoch: the batches must be those of a fresh loader's epoch 0, for
+    every k and every disturbance.  only = (k, disturbance) for replay."""
+    api = "SpectDataLoader" if kind == "spect" else "LangDataLoader"
+    path = corpus.write(root, "A")
+    W, rank = group if group else (1, 0)
+    base_case = {"kind": "mid", "api": kind, "lens": list(corpus.lens), "bc": bc, "fl": fl,
+                 "group": list(group) if group else None, "mode": mode}
+    sig = {"api": api, "bucketed": bc["B"] > 1, "distributed": W > 1, "shuffle": bc["seed"] is not None}
+    try:
+        want = [C.canon(b) for b in _make(kind, path, bc, fl, 0, mode, 0)]
+        loader = _make(kind, path, bc, fl, 0, mode, 1)
+    except Exception as e:
+        if W > 1 and mode == "raise" and not bc["drop"] and corpus.n % W and isinstance(e, ValueError):
+            return
+        ctx.violation(dict(sig, symptom="raises", type=type(e).__name__), dict(base_case, k=None, disturbance=None),
+                      {"error": str(e)[-300:], "where": "constructor"})
+        return
+    for k in range(len(want) + 1):
+        for d in DISTURBANCES:
+            if only is not None and (k, d) != tuple(only):
+                continue
+            if k == 0 and d.startswith("second-iter"):
+                continue  # a pass that has not delivered anything yet is not bound to an epoch (iterators are lazy)
+            ctx.case(1, 1 if corpus.n >= 2 else 0)
+            case = dict(base_case, k=k, disturbance=d)
+            try:
+                loader.epoch = 0
+                it = iter(loader)
+                got = [C.canon(b) for b in itertools.islice(it, k)]
+                smp = loader.batch_sampler.sampler
+                if d == "len":
+                    len(loader)
+                elif d == "epoch-read":
+                    loader.epoch
+                elif d == "peek-cur":
+                    list(smp.get_samples_for_epoch(smp.epoch))
+                elif d == "peek-next":
+                    list(smp.get_samples_for_epoch(smp.epoch + 1))
+                else:
+                    list(itertools.islice(iter(loader), int(d[-1])))
+                got += [C.canon(b) for b in it]
+            except Exception as e:
+                ctx.violation(dict(sig, symptom="raises", type=type(e).__name__, disturbance=d), case,
+                              {"error": str(e)[-300:]})
+                return
+            if got != want:
+                ctx.violation(dict(sig, symptom="epoch-disturbed-mid-pass-differs-from-fresh-loader", disturbance=d), case,
+                              {"fresh_sizes": [b[-2][2] if kind == "spect" else b[1][2] for b in want],
+                               "first_differing_batch": next((j for j, (x, y) in enumerate(zip(got, want)) if x != y),
+                                                             min(len(got), len(want))),
+                               "batches_delivered": len(got), "batches_fresh": len(want)})
+                return
+    ctx.outcome(["mid", len(want), [len(b[-1]) for b in want]])
+
+
+def _mid_pass(ctx, spec, tier, seed):
+    kind = spec["kind"]
+    fl = dict(FLAGS_BASE)
+    with C.Scratch("c14-mid-%s-%d" % (kind, spec["i"])) as root:
+        corpora = DIST_CORPORA if tier == "quick" else DIST_CORPORA + [(1, 2, 3), (2, 2), (3, 3, 1, 1, 2)]
+        plan = [bc for bc in _batchings(seeds=(0, 1) if tier == "quick" else (None, 0, 1), bss=(1, 2))
+                if bc["B"] > 1 or tier == "thorough"]
+        groups = [(None, None), ((2, 0), "uneven"), ((2, 1), "uneven")]
+        if tier == "thorough":
+            groups += [((3, 1), "uneven"), ((2, 0), "ignore"), ((3, 2), "raise")]
+        units = [(c, j) for c in corpora for j in range(4)]
+        for lens, j in units[spec["i"]::spec["of"]]:
+            corpus = C.Corpus(lens, seed)
+            for bc in plan[j::4]:
+                for group, mode in groups:
+                    if group:
+                        with SimulatedGroup(*group):
+                            run_mid_epoch(ctx, kind, corpus, root, bc, fl, group, mode)
+                    else:
+                        run_mid_epoch(ctx, kind, corpus, root, bc, fl)
+    ctx.sample({"mid_epoch_part": {"loader": kind, "disturbances": list(DISTURBANCES),
+                                   "example": {"feat_lengths": [3, 1, 3, 2, 2], "k": 1, "disturbance": "len"}}})
+
+
 # ------------------------------------------------------------- (c) context windows --------
 def _extract_window_pass(ctx, seed):
     for T in range(1, 5):
@@ -688,6 +782,8 @@ def run_shard(spec, tier, seed):
         _loader_pass(ctx, spec, tier, seed)
     elif part == "dist":
         _dist_pass(ctx, spec, tier, seed)
+    elif part == "mid":
+        _mid_pass(ctx, spec, tier, seed)
     elif part == "window":
         _window_pass(ctx, spec, tier, seed)
     else:
@@ -719,6 +815,16 @@ def replay(case):
                     run_loader(*args)
             finally:
                 torch.set_default_dtype(old)
+    elif kind == "mid":
+        with C.Scratch("c14-replay") as root:
+            corpus = C.Corpus(case["lens"], seed)
+            grp = tuple(case["group"]) if case["group"] else None
+            only = None if case["k"] is None else (case["k"], case["disturbance"])
+            if grp:
+                with SimulatedGroup(*grp):
+                    run_mid_epoch(ctx, case["api"], corpus, root, case["bc"], case["fl"], grp, case["mode"], only)
+            else:
+                run_mid_epoch(ctx, case["api"], corpus, root, case["bc"], case["fl"], None, None, only)
     elif kind == "dist":
         with C.Scratch("c14-replay") as root:
             corpus = C.Corpus(case["lens"], seed)
